@@ -258,6 +258,30 @@ def run(ctx):
             if why:
                 attrs["kind"] = "payload-leak"
                 ctx.finding(attrs, f"{c['meta']['func']} on {c['meta']['dtype']}: non-null output or mask depends on the payload under a null ({why})", rep)
+    # every array owns its mask: a null written into one array never shows up in another array that was (or is
+    # later) made nullable from plain data of the same shape
+    fresh = []
+    for i in range(30 * scale):
+        d = rnd.choice(["int64", "float64", "int32"])
+        sh = [rnd.choice([2, 3, 4])] + ([rnd.choice([1, 2])] if rnd.random() < 0.3 else [])
+        v, w = ops.tensor(rnd, d, sh, "small"), ops.tensor(rnd, d, sh, "small")
+        z = ", ".join("0" for _ in sh)
+        nd_ = "n" + d
+        write = rnd.choice([f"a_.null[{z}] = True", f"a_[{z}] = ndx.asarray(np.ma.masked_array(np.zeros((), dtype=np.{d}), mask=True))"])
+        form = rnd.choice([f"a_ = ndx.astype(v, ndx.{nd_}); {write}; out = [ndx.astype(w, ndx.{nd_}), a_]",
+                           f"b0_ = ndx.astype(w, ndx.{nd_}); a_ = ndx.astype(v, ndx.{nd_}); {write}; out = [b0_, ndx.astype(w, ndx.{nd_}) + 1, a_]",
+                           f"a_ = ndx.astype(v, ndx.{nd_}); {write}; out = [w + ndx.asarray(np.ma.masked_array(np.zeros({sh!r}, dtype=np.{d}), mask=False)), ndx.astype(w, ndx.{nd_}) * 2, a_]"])
+        mk_a = f"mk(v, np.arange(v.size).reshape(v.shape) == 0)"
+        if form.startswith("b0_"):
+            orc = f"out = [mk(w, np.zeros(w.shape, bool)), mk(w + 1, np.zeros(w.shape, bool)), {mk_a}]"
+        elif "* 2" in form:
+            orc = f"out = [mk(w, np.zeros(w.shape, bool)), mk(w * 2, np.zeros(w.shape, bool)), {mk_a}]"
+        else:
+            orc = f"out = [mk(w, np.zeros(w.shape, bool)), {mk_a}]"
+        c = families.mkcase(f"NF-{i}", {"v": v, "w": w}, form, orc, {"func": "mask-ownership", "dtype": nd_, "dclass": family.dclass(nd_)}, rnd, (1e-12, 1e-12), symbolic=False)
+        c["lazy_subsets"] = [{"names": ["w"]}] if rnd.random() < 0.5 else []
+        fresh.append(c)
+    family.evaluate(ctx, fresh, want=("oracle", "traced"))
     ctx.sample({"impl": base[0]["impl"], "inputs": base[0]["inputs"]})
     ctx.sample({"impl": base[-1]["impl"], "inputs": base[-1]["inputs"]})
     ctx.coverage.update({
